@@ -85,6 +85,9 @@ func (fs *FS) wrapRelPathErr(err error) error {
 		errCopy.Path = strings.TrimPrefix(errCopy.Path, rootedPath)
 		errCopy.Path = strings.ReplaceAll(errCopy.Path, separator, slash)
 		errCopy.Path = strings.TrimPrefix(errCopy.Path, slash)
+		if errCopy.Path == "" {
+			errCopy.Path = "." // the FS root itself
+		}
 		err = &errCopy
 	case *os.LinkError:
 		errCopy := &hackpadfs.LinkError{Op: e.Op, Old: e.Old, New: e.New, Err: e.Err}
@@ -94,6 +97,12 @@ func (fs *FS) wrapRelPathErr(err error) error {
 		errCopy.New = strings.TrimPrefix(errCopy.New, rootedPath)
 		errCopy.New = strings.ReplaceAll(errCopy.New, separator, slash)
 		errCopy.New = strings.TrimPrefix(errCopy.New, slash)
+		if errCopy.Old == "" {
+			errCopy.Old = "."
+		}
+		if errCopy.New == "" {
+			errCopy.New = "."
+		}
 		err = errCopy
 	}
 	return err
